@@ -1,6 +1,8 @@
 package types
 
 import (
+	"fmt"
+
 	"cosmossdk.io/math"
 	sdk "github.com/cosmos/cosmos-sdk/types"
 )
@@ -14,6 +16,12 @@ const (
 	// MaxExtendedRound is the maximum extend rounds for a batch auction to have
 	// It prevents from a batch auction to extend its rounds forever
 	MaxExtendedRound = 30
+
+	// MaxExtendedPeriod is the maximum extended period in days (100 years).
+	// Every extended round moves the end time of a batch auction by this many days. Without a bound, a
+	// period of millions of days yields an end time beyond the year 9999, which cannot be encoded:
+	// storing the auction fails and the begin blocker returns an error when the auction is extended.
+	MaxExtendedPeriod = 36500
 )
 
 var (
@@ -59,6 +67,9 @@ func validatePlaceBidFee(v sdk.Coins) error {
 	return v.Validate()
 }
 
-func validateExtendedPeriod(uint32) error {
+func validateExtendedPeriod(v uint32) error {
+	if v > MaxExtendedPeriod {
+		return fmt.Errorf("extended period %d must not exceed %d days", v, MaxExtendedPeriod)
+	}
 	return nil
 }
